@@ -31,6 +31,7 @@ int main(void){
   rn = gen_uri(tr, RFLAGS, KR, SEGL, "r"); rt = exact(tr, rn, "ref");
   if (U(uriParseSingleUriExMm)(&B, bt, bt + bn, &ep, &mm) != URI_SUCCESS) { uk_assume(0); return 0; }
   if (U(uriParseSingleUriExMm)(&R, rt, rt + rn, &ep, &mm) != URI_SUCCESS) { U(uriFreeUriMembersMm)(&B, &mm); uk_assume(0); return 0; }
+  uk_note_text("base", bt, bn, sizeof(CH)); uk_note_text("ref", rt, rn, sizeof(CH));
   compat = uk_choice(2, "compat");
   ro_uri(&B); ro_uri(&R);
   rc = U(uriAddBaseUriExMm)(&T, &R, &B, compat ? URI_RESOLVE_IDENTICAL_SCHEME_COMPAT : URI_RESOLVE_STRICTLY, &mm);
@@ -47,7 +48,7 @@ int main(void){
     if (rc == URI_SUCCESS){
       en = or_resolve(bt, bn, &bs, rt, rn, &rs, compat, exp, tmp, tmp2);
 #ifdef P_C06
-      got = recompose(&T, &len);
+      got = recompose(&T, &len); uk_note_text("got", got, len, sizeof(CH)); uk_note_text("expected", exp, en, sizeof(CH));
       uk_assert(len == en, "C06: resolved URI equals the RFC 3986 5.2.2 target (length)");
       if (len == en) for (i = 0; i < en; i++) uk_assert(got[i] == exp[i], "C06: resolved URI equals the RFC 3986 5.2.2 target");
       { const URI *src = (rs.sch_a >= 0 && !(compat && rng_text_eq(&R.scheme, &B.scheme))) || rs.has_auth ? &R : &B;
